@@ -49,6 +49,7 @@ from treadmill import supervisor as tm_supervisor  # noqa: E402
 from treadmill.appcfg import abort as app_abort    # noqa: E402
 from treadmill.appcfg import configure as app_cfg  # noqa: E402
 
+from mc import modstate
 from mc import statex                   # noqa: E402
 
 READY = '.ready'
@@ -481,6 +482,8 @@ class NodeWorld:
             raise statex.HarnessError('run root not set')
         self.cfg = cfg
         self.salt = cfg['salt']
+        if token is None:
+            modstate.reset()    # a history starts from a fresh process
         self.root = os.path.join(RUN_ROOT, 'p%d' % os.getpid())
         _CUR = None
         shutil.rmtree(self.root, ignore_errors=True)
@@ -548,6 +551,11 @@ class NodeWorld:
         to derive the successors of a replay-built state without replaying
         its history once per successor (cross-checked against full replay)."""
         global _CUR  # pylint: disable=global-statement
+        if modstate.dirty():
+            # the package keeps module-level state (a memo) that a copy of
+            # the directory and of the manager object does not carry: such a
+            # state is rebuilt by replay only
+            return None
         tree = self.root + '.ck'
         saved = _CUR
         _CUR = None
@@ -1325,6 +1333,8 @@ class NodeWorld:
             # unchanged tree)
             repr(sorted((k, v) for k, v in _mgr_state(self.mgr).items()
                         if k != '_is_active')).replace(self.root, '<root>'),
+            # and anything the package remembers at module level
+            repr(modstate.digest()).replace(self.root, '<root>'),
             s.other,
             # directory order of the cache = order in which _synchronize
             # configures new entries (visible through the crash points)
